@@ -615,6 +615,35 @@ fn pick_trivia(rng: &mut Rng, b: &Boundary) -> (String, String) {
     let table = if use_nl { TRIVIA_NEWLINE } else { TRIVIA_INLINE };
     let (class, texts) = rng.pick(table);
     let mut t = rng.pick(texts).to_string();
+    let mut class = *class;
+    // one insertion in four is a comment with a random body over an alphabet of characters that matter to the lexer
+    // (`/*/ x */`, `/***/`, `/* " ' \\ # */`, `// /* "`): a comment is one token whatever it contains
+    if rng.chance(1, 4) {
+        const ALPHA: &[&str] = &["/", "*", " ", "a", "\"", "'", "\\", "#", "<", ">", "(", "//", "/*", "0", "\t"];
+        let mut body = String::new();
+        for _ in 0..rng.below(6) {
+            body.push_str(*rng.pick(ALPHA));
+        }
+        if use_nl && rng.chance(1, 2) {
+            // line comment: must not end in a backslash (that would splice the next line into the comment)
+            while body.ends_with('\\') {
+                body.pop();
+            }
+            class = "random-line-comment";
+            t = format!("//{}\n", body);
+        } else {
+            if use_nl && rng.chance(1, 2) {
+                body.push('\n');
+            }
+            let body = body.replace("*/", "* /");
+            class = "random-block-comment";
+            // `/*` + body + `*/`: a body ending in `*` is fine (`/***/`), a body starting with `/` gives `/*/ .. */`
+            t = format!("/*{}*/", body);
+            if use_nl && !t.contains('\n') {
+                t.push('\n');
+            }
+        }
+    }
     if b.after_slash && t.starts_with('/') {
         t.insert(0, ' ');
     }
